@@ -266,6 +266,41 @@ def run_case(case, seed):
             if calls[0] > iters or calls[0] < 1:
                 vio.append({"key": f"C17|hutchinson-cap|tol={tol}", "what": f"{calls[0]} block products with max_iters={iters}", "detail": {"calls": calls[0], "max_iters": iters}})
             outcome = f"cap:{calls[0]}"
+        elif kind == "PROBES":
+            # several iterations: record every probe block the estimator multiplies with.  The sampling error it claims (var / (i * bs))
+            # assumes i * bs INDEPENDENT probes: no block may be drawn twice, and the estimate must be the bilinear form averaged over
+            # ALL recorded probes (equal weights), for every offset
+            _, n, k, rand, key, iters, via = case
+            M = P.ints(P.rng(seed, "c17probes", n), (n, n), -3, 3).astype(np.float64)
+            blocks = []
+
+            def mm2(X):
+                blocks.append(np.array(X, copy=True))
+                return M @ X
+
+            A = ops.LinearOperator(np.float64, (n, n), matmat=mm2)
+            if via == "estimate":
+                est = np.asarray(hutchinson_diag_estimate(A, k=k, tol=1.1e-3, max_iters=iters, rand=rand, key=key)[0])
+            else:
+                import cola.linalg as L
+                est = np.asarray(L.diag(A, k, L.Hutch(tol=1.1e-3, max_iters=iters, rand=rand, key=key)))
+            ntr = 3
+            tag = f"{rand},k{'=0' if k == 0 else ('>0' if k > 0 else '<0')},{via}"
+            if not (1 <= len(blocks) <= iters):
+                vio.append({"key": f"C17|hutchinson-cap|{tag}", "what": f"{len(blocks)} block products with max_iters={iters}", "detail": {"calls": len(blocks)}})
+            dup = [(i, j) for i in range(len(blocks)) for j in range(i + 1, len(blocks)) if blocks[i].shape == blocks[j].shape and np.array_equal(blocks[i], blocks[j])]
+            if dup:
+                vio.append({"key": f"C17|hutchinson-reuses-probes|{tag}", "what": f"iterations {dup[0]} multiply with the same probe block: the samples are not "
+                            "independent, so the estimate is not within the sampling error implied by its variance", "detail": {"duplicates": dup[:5], "blocks": len(blocks), "n": n, "key": key}})
+            if blocks:
+                Z = np.concatenate(blocks, axis=1)
+                if rand == "rademacher" and not np.all(np.abs(Z) == 1):
+                    vio.append({"key": f"C17|rademacher-probes-not-signs|{tag}", "what": "Rademacher probes are not +-1", "detail": {}})
+                want = bilinear_reference(M, Z, k)
+                if est.shape != want.shape or not np.allclose(est, want, rtol=1e-10, atol=1e-10):
+                    vio.append({"key": f"C17|hutchinson-not-the-mean-over-its-probes|{tag}", "what": "the estimate is not the equal-weight average of the "
+                                "bilinear form over the probes that were drawn", "detail": {"got": est.tolist()[:6], "want": want.tolist()[:6], "blocks": len(blocks)}})
+            outcome = f"probes:{len(blocks)}"
     logging.disable(logging.NOTSET)
     return {"transitions": ntr, "outcome": outcome, "violations": vio}
 
@@ -298,7 +333,14 @@ def cases(tier, seed):
         for iters in (1, 2, 5, 50):
             for rand in ("normal", "rademacher"):
                 out.append(["CAP", tol, iters, rand])
-    _DESC.update({"cola_events": len(E), "user_events": len(U), "histories": sum(1 for c in out if c[0] == "HIST"), "max_history_length": depth,
+    for n in (6, 12):
+        for k in (0, 2, -1):
+            for rand in ("normal", "rademacher"):
+                for key in (None, 0, 7):
+                    for iters in (2, 3, 8):
+                        for via in ("estimate", "diag(Hutch)"):
+                            out.append(["PROBES", n, k, rand, key, iters, via])
+    _DESC.update({"probe_record_cases": sum(1 for c in out if c[0] == "PROBES"), "cola_events": len(E), "user_events": len(U), "histories": sum(1 for c in out if c[0] == "HIST"), "max_history_length": depth,
                   "probe_cube_cases": sum(1 for c in out if c[0] == "CUBE"), "work_items": len(out)})
     return out
 
@@ -313,8 +355,10 @@ def describe(tier, seed):
                  "{None, 0, 7}) and 4 user events" + ("; every sequence of 3 events over all " + str(_DESC.get("length3_event_set")) + " events"
                                                       if tier == "thorough" else "")
                  + "; Hutchinson: full Rademacher cube for n<=4, all offsets, 4 operator families; Diagonal exactness for 4 keys x 3 caps x 4 sizes; "
-                   "iteration cap over 2 tolerances x 4 caps x 2 probe kinds",
+                   "iteration cap over 2 tolerances x 4 caps x 2 probe kinds; recorded probes over n in {6, 12} x 3 offsets x 2 probe kinds x 3 keys x caps {2, 3, 8} x "
+                   "{hutchinson_diag_estimate, diag(A, k, Hutch())}",
         "alphabet": _DESC,
         "oracle": "numpy.random.get_state() bit-identical around every cola call; every call equals its clean-state result bit for bit; user draws "
-                  "equal those of the history without cola calls; average over the probe cube == diag(A, k) exactly",
+                  "equal those of the history without cola calls; average over the probe cube == diag(A, k) exactly; no probe block is drawn twice within a "
+                  "run and the estimate equals the equal-weight mean of the bilinear form over all recorded probes",
     }
